@@ -11,6 +11,7 @@ import (
 
 	"fmt"
 	"github.com/creachadair/jrpc2"
+	"github.com/creachadair/jrpc2/jhttp"
 	"math/rand"
 	"strings"
 	"testing"
@@ -529,10 +530,75 @@ func TestC04(t *testing.T) {
 	c04Stress(res, pick(10, 100))
 }
 
+// c05HTTPFailure: a Client over jhttp.Channel; the HTTP transport fails for one request while
+// another is still in flight. Every outstanding call must still be completed (with an error) and
+// Close must return: the failure stops the client, which closes the channel while the other
+// request's goroutine is still busy.
+func c05HTTPFailure(res *Result) {
+	for round := 0; round < 6; round++ {
+		waits := []chan struct{}{make(chan struct{}), make(chan struct{}), make(chan struct{})}
+		hc := &inprocHTTP{}
+		hc.gate = func(n int) (chan struct{}, func() (int, bool)) {
+			if n > len(waits) {
+				return nil, func() (int, bool) { return 204, false }
+			}
+			return waits[n-1], func() (int, bool) { return 200, n == 1 } // the first request fails, the others are answered
+		}
+		cli := jrpc2.NewClient(jhttp.NewChannel("http://x/", &jhttp.ChannelOptions{Client: hc}), nil)
+		ncalls := 2 + round%2
+		done := make(chan error, ncalls)
+		for k := 0; k < ncalls; k++ {
+			go func() { _, err := cli.Call(context.Background(), "m", nil); done <- err }()
+		}
+		deadline := time.Now().Add(5 * time.Second)
+		for {
+			hc.mu.Lock()
+			n := hc.n
+			hc.mu.Unlock()
+			if n >= ncalls || time.Now().After(deadline) {
+				break
+			}
+			time.Sleep(time.Millisecond)
+		}
+		close(waits[0]) // transport failure of the first request
+		time.Sleep(time.Duration(round%3) * 2 * time.Millisecond)
+		for _, w := range waits[1:] {
+			close(w)
+		}
+		in := fmt.Sprintf("client over jhttp.Channel: %d calls in flight, the first HTTP request fails", ncalls)
+		res.Case(fmt.Sprintf("http-failure/%d", round), true, in)
+		res.Count("http-transport-failure")
+		got := 0
+		timeout := time.After(5 * time.Second)
+	wait:
+		for got < ncalls {
+			select {
+			case <-done:
+				got++
+			case <-timeout:
+				break wait
+			}
+		}
+		if got < ncalls {
+			res.Violatef("client run did not finish: outstanding calls were never completed after the channel failed", in, "%d of %d calls still blocked after 5s", ncalls-got, ncalls)
+			return // the client is wedged; Close would block too
+		}
+		closed := make(chan struct{})
+		go func() { cli.Close(); close(closed) }()
+		select {
+		case <-closed:
+		case <-time.After(5 * time.Second):
+			res.Violatef("client run did not finish: Close never returned after the channel failed", in, "")
+			return
+		}
+	}
+}
+
 func TestC05(t *testing.T) {
 	res := newResult("C05", "scenarios: as C04 plus, at random positions, context cancellation of individual operations, Close, peer EOF, Recv errors (EOF / other), Send errors, undecodable inbound records; OnCancel / OnStop / OnCallback hooks installed; under many schedules. distinct = distinct event-log shape; non-trivial = at least two requests outstanding")
 	defer res.Write(t)
 	runCliProperty(t, res, "C05", true)
+	c05HTTPFailure(res)
 }
 
 // c05Hooks: OnStop exactly once after a stop (never without), Close returns after callbacks.
